@@ -270,6 +270,8 @@ theorem defineLoop_terminated (file : List Line) (sym : Bytes) (hfile :  l 
     rw [defineLoop] at h
     split at h
     路 split at h
+      路 exact ih _ _ _ r hrest hw h
+      split at h
       路 cases h
       路 next l hl =>
         have hlf := hfile l (List.mem_of_getElem? hl)
